@@ -108,7 +108,59 @@ let handle_ucigo line args obs =
          | _ -> ())) lines
   | _ -> failwith ("bad ucigo: " ^ short line)
 
+(* iterpv hash=h P turn np fm limit=d => d1:nodes:score:pv | ...   (C15: the reported stream) *)
+let handle_iterpv line args obs =
+  match args with
+  | [hash; ptok; turn; np; fm; limit] ->
+    let zt = Dispatch4.zt0 () in
+    let hashmb = (match split_on '=' hash with [_; v] -> int_of_string v | _ -> failwith "hash") in
+    let lim = (match split_on '=' limit with [_; v] -> int_of_string v | _ -> failwith "limit") in
+    let p0 = Dispatch2.parse_pos ptok and t0 = n_of_int (int_of_string turn) in
+    let (h0, b0) = new_board zt [] p0 t0 (n_of_int (int_of_string np)) (z_of_int (int_of_string fm)) in
+    let (h1, f) = fork h0 b0 in
+    let tt = if hashmb = 0 then NoTT else (match new_table (n_of_int 1024) with Some t -> TableTT t | None -> NoTT) in
+    let ((infos, _), _) = iterate zt false Dispatch3.qfuel (nat_of_int (lim + 1)) (nat_of_int 1) (Some (nat_of_int lim)) (h1, f) tt [] in
+    let mtoks = List.map (fun (((d, nodes), sc), pv) ->
+        Printf.sprintf "d%d:%d:%s:%s" (int_of_nat d) (int_of_n nodes) (Dispatch3.score_str sc) (Dispatch3.pv_str pv)) infos in
+    let otoks = List.map String.trim (split_str " | " obs) in
+    let rec subseq a b = match a, b with
+      | [], _ -> true | _, [] -> false
+      | x :: a', y :: b' -> if x = y then subseq a' b' else subseq a b' in
+    let last l = (match List.rev l with x :: _ -> x | [] -> "") in
+    if not (subseq otoks mtoks && last otoks = last mtoks) then report_mismatch line (String.concat " | " mtoks);
+    bump "iterpv/analysis";
+    if List.length otoks < List.length mtoks then bump "iterpv/skipped-depth";
+    (* C15: the stream ends exactly at the depth limit or at the first depth with a forced mate within the depth *)
+    let final = (match List.rev infos with (((d, _), sc), _) :: _ -> Some (int_of_nat d, sc) | [] -> None) in
+    (match final with
+     | Some (d, sc) ->
+       let (md, okm) = mate_distance sc in
+       let mate_stop = okm && int_of_z md <= d in
+       if mate_stop then bump "iterpv/ended-by-mate";
+       (match List.rev otoks with
+        | lt :: _ ->
+          let od = (try int_of_string (String.sub (List.hd (split_on ':' lt)) 1 (String.length (List.hd (split_on ':' lt)) - 1)) with _ -> -1) in
+          if od <> lim && not mate_stop then report_spec ~key:"prop=C15" line (Printf.sprintf "analysis ended at depth %d, requested limit %d, no forced mate" od lim)
+        | [] -> report_spec ~key:"prop=C15" line "analysis reported nothing")
+     | None -> ());
+    (* each reported score is the minimax value at that depth (history-free legal starts) *)
+    if wf_b p0 t0 && hashmb = 0 then begin
+      let g = g_start (abs_pos p0) (color_of t0) (z_of_int (int_of_string np)) (z_of_int (int_of_string fm)) in
+      List.iter (fun tok ->
+          match split_on ':' tok with
+          | d :: _ :: sc :: _ ->
+            let dd = int_of_string (String.sub d 1 (String.length d - 1)) in
+            if dd <= 3 then begin
+              let v = Dispatch3.spec_value { Dispatch3.depths = []; quiet = false; tt = "none"; low = neginf_score; high = inf_score; cancel = -1 } g dd true in
+              if not (Dispatch3.eqv (Dispatch3.parse_score sc) v) then
+                report_spec ~key:"prop=C15" line (Printf.sprintf "depth %d reported with score %s, minimax value %s" dd sc (Dispatch3.score_str v))
+            end
+          | _ -> ()) otoks
+    end
+  | _ -> failwith ("bad iterpv: " ^ short line)
+
 let handle (line : string) (kind : string) (args : string list) (obs : string) : unit =
   match kind with
+  | "iterpv" -> handle_iterpv line args obs
   | "ucigo" -> handle_ucigo line args obs
   | _ -> failwith ("unknown case kind: " ^ line)
